@@ -308,6 +308,41 @@ def _drive(out, zn, zd, chunks, op, sch, label=None):
                 out.viol.append(("%s:%s" % (c, name), m))
 
 
+# ------------------------------------------------------------------ sessions: several calls in one process
+def run_dm_sessions(rnd, out, n=4):
+    """The same geometry dedispersed with several DMs one after the other (coherent and incoherent, Dask and
+    NumPy twins): every call must equal its own NumPy twin -- nothing of an earlier call (a chirp, a graph
+    key, a memoised coefficient) may leak into a later one.  Deterministic part of every run."""
+    for i in range(n):
+        zn, zd, chunks = random_pair(rnd, cls="BasebandSignal" if i % 2 else "DualPolarizationSignal", time_single=True)
+        dm0 = _dm_for(zn, rnd)
+        if dm0 is None:
+            out.note("dm_session_skipped")
+            continue
+        ref = [None, zn.max_freq, zn.min_freq][i % 3]
+        what = "DM session on %s%s chunks %s" % (type(zn).__name__, list(zn.shape), [list(c) for c in chunks])
+        for k, fac in enumerate((3.5, 1.0, 1.00004, -1.0)):
+            dm = dm0 * fac
+            for name, f, fft in (("coh_dd", lambda z: pb.coherent_dedispersion(z, dm, ref_freq=ref), True),
+                                 ("incoh_dd", lambda z: pb.incoherent_dedispersion(z, dm * 40), False)):
+                try:
+                    rn = f(zn)
+                except Exception:  # noqa
+                    out.note("driver_np_raises")
+                    continue
+                try:
+                    got = f(zd).compute(scheduler="synchronous")
+                except Exception as e:  # noqa
+                    out.viol.append(("raises:%s-session" % name, "call %d of a %s raised %r" % (k + 1, what, e)))
+                    continue
+                out.note("driver_op:%s-session" % name)
+                for c, m, amb in dr.compare_signals(got, rn, fft, "%s, call %d (DM x %g)" % (what, k + 1, fac)):
+                    if amb:
+                        out.ambiguous += 1
+                    else:
+                        out.viol.append(("%s:%s" % (c, name), m))
+
+
 # ------------------------------------------------------------------ binary operations, mixed containers
 def run_binary(n, rnd, out):
     for i in range(n):
